@@ -43,13 +43,13 @@ type Opts struct {
 
 type ctxT struct {
 	stranger string
-	w       *world.World
-	tip     uint64
-	txKnown string
-	txSpent string
-	txPend  string
-	rawTx   string
-	export  string
+	w        *world.World
+	tip      uint64
+	txKnown  string
+	txSpent  string
+	txPend   string
+	rawTx    string
+	export   string
 }
 
 // domain returns the value domain of one request field (most interesting first).
